@@ -125,7 +125,7 @@ func buildVariant(work, variant string, race bool) (string, map[string]any) {
 		args := []string{"-repo", repoRoot, "-out", dir, "-shim", filepath.Join(verifRoot, "shim/vsched"), "-extra", filepath.Join(verifRoot, "shim/extra"),
 			"-sched", "homescript/runtime,homescript/interpreter,v3/homescript"}
 		if variant == "mapiter" {
-			args = append(args, "-maps", "homescript")
+			args = append(args, "-maps", "all")
 		}
 		out, err := run(verifRoot, filepath.Join(verifRoot, "bin/rewrite"), args...)
 		if err != nil {
